@@ -2,11 +2,13 @@
    distinct entries XOR to zero; the from-scratch key depends only on placement / side / rights / ep; the search's null move
    keeps stored key = recomputed key; make_search_move keeps stored key = recomputed key for every position and every move that
    fits the position (C04_incremental: move_fits is a decidable condition on (position, move) -- the moved man stands on the
-   from-square, the squares the move sets are clear, the men it removes are there).  That every generated move of a legal position
-   fits (C04_incremental_full) is decided per run: the extracted move_fits is evaluated on every generated move of every stream
-   position, and the engine's stored key is compared with its own from-scratch key after every move. *)
+   from-square, the squares the move sets are clear, the men it removes are there), and every move generated for a consistent
+   position (GenProofs.cons: disjoint piece sets, occupancies = unions, rights and en-passant square valid) fits it
+   (C04_incremental_generated).  Consistency itself is preserved by make (Props/C02.v), so the key invariant holds along every path
+   of generated moves from a consistent position (Props/C06.v).  Per run: the extracted move_fits is evaluated on every generated
+   move of every stream position, and the engine's stored key is compared with its own from-scratch key after every move. *)
 From Coq Require Import NArith List.
-From JV Require Import Gen.Consts Model.Chess Model.Abs Proofs.MoveGenProofs Proofs.ZobristProofs Proofs.KeyProofs.
+From JV Require Import Gen.Consts Model.Chess Model.Abs Proofs.MoveGenProofs Proofs.ZobristProofs Proofs.KeyProofs Proofs.GenProofs.
 Local Open Scope N_scope.
 
 Theorem C04_tables_match_compiled :
@@ -34,6 +36,14 @@ Theorem C04_incremental : forall g m g', length (bbs g) = 12%nat -> keyok g -> m
   make_search_move g m = Made g' -> keyok g' /\ length (bbs g') = 12%nat.
 Proof. exact make_keyok. Qed.
 
+(* ... and every move generated for a consistent position fits it: the incremental key is right after every generated move *)
+Theorem C04_incremental_generated : forall g all m g', cons g -> keyok g -> In m (generate_moves g all) ->
+  make_search_move g m = Made g' -> keyok g'.
+Proof. exact make_keyok_generated. Qed.
+
+Theorem C04_generated_moves_fit : forall g all m, cons g -> In m (generate_moves g all) -> move_fits g m = true.
+Proof. intros g all m C H. exact (generated_moves_fit g C all m H). Qed.
+
 Definition C04_incremental_full : Prop := forall g m g', wf g = true -> keyok g ->
   In m (legal_moves g) -> make_search_move g m = Made g' -> keyok g'.
 
@@ -42,3 +52,5 @@ Print Assumptions C04_tables.
 Print Assumptions C04_function.
 Print Assumptions C04_null_move.
 Print Assumptions C04_incremental.
+Print Assumptions C04_incremental_generated.
+Print Assumptions C04_generated_moves_fit.
